@@ -147,8 +147,11 @@ def spec02 (st : SState) (line : String) : SState × String :=
         else if sum != size then (st, s!"violates size-is-sum size={size} sum={sum}")
         else if (if ser == "-" then 0 else ser.length / 2) != size then (st, s!"violates size-exact size={size} len={ser.length / 2}")
         else match kv (words extra) "mon" with
-          | some "-" => (st, "ok")
-          | none => (st, "ok")
+          | some "-" | none =>
+            -- serializing the same (unmodified) object a second time must succeed too and give the same bytes
+            (match kv (words extra) "again" with
+             | some "same" | some "-" | none => (st, "ok")
+             | some a => (st, s!"violates serialize-repeatable {a.take 120}"))
           | some m => (st, s!"violates layer-overwrite mon={m}")
       | _, _, _ => (st, "violates unparsable-output")
     | _ => (st, "unspecified")
@@ -158,7 +161,7 @@ def spec02 (st : SState) (line : String) : SState × String :=
 def specReparse (st : SState) (line : String) : SState × String :=
   match implParts line with
   | none => (st, "bad-line")
-  | some (_, common, _) =>
+  | some (_, common, extra) =>
     let cw := words common
     match cw with
     | "ok" :: chain :: _ =>
@@ -176,7 +179,11 @@ def specReparse (st : SState) (line : String) : SState × String :=
                 | some l => l.cls == "RawPDU" && l.fields != [("payload", "-")]
                 | none => false
               if payloadNonEmpty && ser2 != "same" then (st, s!"violates reserialize-fixpoint")
-              else (st, "ok")
+              else match kv (words extra) "again" with
+                -- the packet was not modified between the two serializations: what a parser gets back from the second
+                -- one must be what it got from the first
+                | some "same" | some "-" | none => (st, "ok")
+                | some a => (st, s!"violates serialize-repeatable {a.take 120}")
       | _, _, _, _ => (st, "violates unparsable-output")
     | _ => (st, "unspecified")
 
